@@ -56,6 +56,14 @@ else UNDECIDED.  Outside tasks staged in a local dict (`D[x.id] = x` under the o
 map.setdefault(k, v)`) are judged where D is filled, so a scan that misses the roots / the descendants is REFUTED (C10-r63).
 Copy loops fed by a generator METHOD yielding (name, value) pairs; roots.setter with the sentinel / value hoisted into locals.
 
+Round 7: the outside-task dict built and returned by a private helper (`for k, v in self.__outer(tasks).items():
+map.setdefault(k, v)`, also bound to a local first) - the helper's fills are judged inside the helper with the caller's
+labels; an accumulator that is a MUTABLE DEFAULT ARGUMENT the call does not pass is REFUTED (shared by all calls; C10-r72).
+"No registration scans the R of every selected task" is REFUTED only when the rebuild of R is made of clone-map lookups
+(otherwise UNDECIDED: a rebuild that returns outside tasks directly needs no registration).
+Not decided (C10-r71): duplicate / overlapping roots handed to the children setter - the outcome depends on the counting
+logic of task._has_id_intersection (id-uniqueness check, C05), which this module does not read.
+
 Not decided: id collisions between an outside task and a member (the map is keyed by id); mutable attribute values
 shared by reference; overlapping root selections in subtree(); the numeric/behavioural outcome of the setters (C01,
 C11); a private field of Task that is not fed by a constructor parameter (reported as UNDECIDED, never passed); the
